@@ -378,6 +378,60 @@ def target_kk_producer(fname: str, worker: str):
     return (f"{EXPL}:{fname}", EXPL, fname, run)
 
 
+def target_kk_producer_cnls():
+    """_use_cnls (the non-linear implementation, run through a process pool): same contract as the two linear producers -- the pseudo
+    chi-squared stored with each fitted circuit uses the Boukamp weight of the IMPEDANCES whatever representation was fitted (the fit
+    weight handed in is the admittance weight when admittance=True, and a chi-squared computed with it is not the statistic every
+    other path reports: it scales with the fourth power of the impedance unit); circuits, num_RCs and chi-squares stay paired."""
+    def run(sess: Session):
+        for admittance in (False, True):
+            f, Zexp, w_in = T.var("f"), T.var("Z_exp"), T.var("fit_weight")
+            circuits = {3: _Circuit("circuit3"), 5: _Circuit("circuit5"), 4: _Circuit("circuit4")}
+            kkfits, items = [], []
+
+            def KKFits(**kw):
+                kkfits.append(kw)
+                return kw
+
+            class It:
+                def __init__(self, worker, args):
+                    self.worker, self.args = worker, iter(args)
+
+                def next(self, timeout=None):
+                    return self.worker(next(self.args))      # StopIteration when the work items are exhausted
+
+            class Pool:
+                def __init__(self, n=None):
+                    pass
+
+                def __enter__(self):
+                    return self
+
+                def __exit__(self, *a):
+                    return False
+
+                def imap(self, worker, args, chunksize=1):
+                    return It(worker, args)
+
+            def worker(args):
+                items.append(args)
+                return (args[3], circuits[args[3]])
+            ns = {"_cnls_test": worker, "Pool": Pool, "MPTimeoutError": type("MPTimeoutError", (Exception,), {}), "KramersKronigError": type("KramersKronigError", (Exception,), {}),
+                  "_boukamp_weight": opaque("kk._boukamp_weight"), "_calculate_pseudo_chisqr": opaque("_calculate_pseudo_chisqr"), "_KKFits": KKFits, "sorted": sorted, "next": next,
+                  "len": len, "sum": sum, "abs": abs, "log": opaque("log"), "StopIteration": StopIteration}
+            O.load(EXPL, ["_use_cnls"], ns)
+            ns["_use_cnls"](f=f, Z_exp=Zexp, weight=w_in, automatically_limit_num_RC=False, num_RCs=[3, 5, 4], add_capacitance=True, add_inductance=False, admittance=admittance,
+                            log_F_ext=0.25, method="leastsq", max_nfev=50, num_procs=2, timeout=60, prog=None)
+            tag = f"[_use_cnls,admittance={admittance}]"
+            sess.check("post", [], z3.BoolVal(len(kkfits) == 1 and kkfits[0].get("num_RCs") == [3, 4, 5] and kkfits[0].get("circuits") == [circuits[3], circuits[4], circuits[5]] and kkfits[0].get("log_F_ext") == 0.25), 0, label=f"circuits sorted by num_RC, pairs kept{tag}")
+            sess.check("post", [], z3.BoolVal(len(items) == 3 and all(it[2] is w_in and it[0] is f and it[1] is Zexp for it in items)), 0, label=f"every fit gets the frequencies, impedances and the fit weight that were handed in{tag}")
+            if len(kkfits) == 1:
+                for n_, chi in zip(kkfits[0]["num_RCs"], kkfits[0]["pseudo_chisqrs"]):
+                    want = opaque("_calculate_pseudo_chisqr")(Zexp, circuits[n_].get_impedances(f), opaque("kk._boukamp_weight")(Zexp, admittance=False))
+                    eq_check(sess, f"pseudo_chisqr[num_RC={n_}] == chisqr(Z_exp, circuit.get_impedances(f), weight(Z_exp as impedance)){tag}", chi, want)
+    return (f"{EXPL}:_use_cnls", EXPL, "_use_cnls", run)
+
+
 def target_kk_results():
     """evaluate_log_F_ext, result assembly: every KramersKronigResult carries frequencies = data.get_frequencies(), impedances =
     circuit.get_impedances(frequencies), residuals = residuals(data.get_impedances(), impedances) and the chi-square paired with
@@ -425,7 +479,7 @@ _c08_zhit_only = c08_targets
 
 
 def c08_targets():       # noqa: F811
-    return _c08_zhit_only() + [target_kk_producer("_use_matrix_inversion", "_inversion_test"), target_kk_producer("_use_least_squares_fitting", "_leastsq_test"), target_kk_results()]
+    return _c08_zhit_only() + [target_kk_producer("_use_matrix_inversion", "_inversion_test"), target_kk_producer("_use_least_squares_fitting", "_leastsq_test"), target_kk_producer_cnls(), target_kk_results()]
 
 
 # ------------------------------------------------------------------------------------------------ fitting
